@@ -4,7 +4,7 @@ from vlib.runner import Spec, Suite
 
 HARNESS = ("h_publisher", ["h_publisher.cpp"], {})
 
-NEXT_OPS = ("res", "poll", "pollr", "blk", "co")
+NEXT_OPS = ("res", "poll", "pollr", "blk", "co", "chain")
 
 
 def parse_line(line):
@@ -46,7 +46,7 @@ def gen_history(rng, maxlen, minlen, nops, flavour):
             return
         sid = next_sid
         mode = rng.choice("aaab" "br" if flavour != "skip" else "abbrr")
-        style = rng.choice(["manual", "manual", "poll", "co", "blk", "mixed"])
+        style = rng.choice(["manual", "manual", "poll", "co", "blk", "mixed", "chain"])
         r = rng.random()
         if live and r < 0.22:
             src = rng.choice(live)
@@ -77,7 +77,12 @@ def gen_history(rng, maxlen, minlen, nops, flavour):
 
     def sub_step(ent):
         sid, mode, style, stage = ent[:4]
-        st = style if style != "mixed" else rng.choice(["manual", "poll", "co", "blk", "pollr"])
+        st = style if style != "mixed" else rng.choice(["manual", "poll", "co", "blk", "pollr", "chain"])
+        if st == "chain" and stage == 0:
+            # listener coroutine: next() here, then at once (inside the wake-up pass that resumes it) next() there
+            others = [e[0] for e in live if e[2] in ("chain", "co", "poll")] or [sid]
+            lines.append("chain %d %d" % (sid, rng.choice(others + [sid])))
+            return
         if st == "manual" or stage > 0:
             if stage == 0:
                 if rng.random() < 0.12:
@@ -232,6 +237,37 @@ def exhaustive_windows():
     return cases
 
 
+def exhaustive_reentrant():
+    """a listener coroutine parked on subscriber 0 that, when resumed inside the wake-up pass of publish / close / kick /
+    ~publisher, goes straight into next() of subscriber 1 (or of 0 again); every pair of modes, two starting situations,
+    every sequence of one or two queue-wide operations, then a final close"""
+    T = ["pub", "pubn3", "close", "kick 0", "kick 1", "destroy"]
+    seqs = [[a] for a in T] + [[a, b] for a in T for b in T]
+    cases = []
+    for m1 in "abr":
+        for m2 in "abr":
+            for target in (1, 0):
+                for pre in (0, 1):
+                    for mx in (0, 2):
+                        for sq in seqs:
+                            v = 1
+                            lines = ["case 0 pub %d 1" % mx, "sub 0 %s" % m1, "sub 1 %s" % m2]
+                            if pre:
+                                lines += ["pub %d" % v, "poll 0", "poll 1"]
+                                v += 1
+                            lines.append("chain 0 %d" % target)
+                            for op in sq:
+                                if op == "pub":
+                                    lines.append("pub %d" % v); v += 1
+                                elif op == "pubn3":
+                                    lines.append("pubn %d %d %d" % (v, v + 1, v + 2)); v += 3
+                                else:
+                                    lines.append(op)
+                            lines += ["close", "poll 0", "poll 1", "end"]
+                            cases.append({"id": 0, "lines": lines})
+    return cases
+
+
 class PubSuite(Suite):
     name = "pub-steps"
     harness = HARNESS
@@ -244,8 +280,11 @@ class PubSuite(Suite):
     def gen_cases(self, rng, tier):
         n = 3000 if tier == "quick" else 300000
         cases = exhaustive_windows()
+        reent = exhaustive_reentrant()
         if tier == "quick":
             cases = rng.sample(cases, 700)
+            reent = rng.sample(reent, 500)
+        cases += reent
         for i in range(n):
             if rng.random() < 0.2:
                 maxlen, minlen = 0, 1
@@ -269,7 +308,7 @@ class PubSuite(Suite):
         closed = False
         subs = {}
         cnt = {"values": 0, "parks": 0, "wakes": 0, "eof_closed": 0, "eof_kicked": 0, "eof_lag": 0, "eof_uncovered": 0,
-               "bad": 0, "window_ops": 0}
+               "bad": 0, "window_ops": 0, "reentrant": 0}
         in_window = {}       # sid -> ops seen since its rdy returned 0
 
         def fetched(s, txt, pos):
@@ -329,6 +368,64 @@ class PubSuite(Suite):
                                 % (s.sid, pos, v, want))
             s.got.append((v, pos))
 
+        follow = {}          # sid of a parked listener coroutine -> subscriber it awaits next as soon as it is resumed
+
+        def park(s, kind, pos):
+            s.parked = kind
+            s.pos = pos
+            cnt["parks"] += 1
+            if closed:
+                msgs.append("close-no-wake: subscriber %d was left waiting on a closed publisher" % s.sid)
+
+        def handle_events(evs, expected):
+            """events of one line; per subscriber they are in the order they happened.  `expected`: subscribers a
+            listener coroutine goes on to (follow-ups of completions in the head of this line)"""
+            parsed = []
+            for e in evs:
+                m = re.match(r"([wbc])(\d+)(?:=(bad)|=(\S+)@(\d+))?$", e)
+                if not m:
+                    msgs.append("trace: unparsable event %s" % e)
+                    continue
+                parsed.append((m.group(1), int(m.group(2)), m.group(3), m.group(4), int(m.group(5)) if m.group(5) else None))
+            at_start = {x.sid for x in subs.values() if x.parked and not x.gone}
+            # a release is the first non-rejected event of a subscriber that was waiting when the line began
+            seen = set()
+            for tag, sid, bad, txt, pos in parsed:
+                if bad or sid in seen:
+                    continue
+                seen.add(sid)
+                if sid in at_start and sid in follow:
+                    expected.append(follow[sid])
+            released = []
+            for tag, sid, bad, txt, pos in parsed:
+                if bad:
+                    cnt["bad"] += 1
+                    if sid in expected:
+                        expected.remove(sid)
+                    continue
+                x = subs.get(sid)
+                if x is None:
+                    msgs.append("trace: event for unknown subscriber %d" % sid)
+                    continue
+                if x.parked and sid in at_start and sid not in released:
+                    released.append(sid)
+                    follow.pop(sid, None)
+                    cnt["wakes"] += 1
+                    if tag == "w":
+                        x.parked = None
+                    else:
+                        fetched(x, txt, pos)
+                elif sid in expected and tag == "c" and not x.parked:
+                    expected.remove(sid)
+                    cnt["reentrant"] += 1
+                    if txt == "parked":
+                        park(x, "c", pos)
+                    else:
+                        fetched(x, txt, pos)
+                else:
+                    msgs.append("spurious-wake: subscriber %d was resumed although it was not waiting" % sid)
+            return at_start, released
+
         for op, line in zip(ops, out):
             w = op.split()
             head, evs = parse_line(line)
@@ -337,7 +434,6 @@ class PubSuite(Suite):
                 continue
             k = w[0]
             if k in ("pub", "pubn", "close", "destroy", "end", "kick", "kickme"):
-                was_parked = sorted(s.sid for s in subs.values() if s.parked and not s.gone)
                 if k == "pub":
                     stream.append(int(w[1]))
                 elif k == "pubn":
@@ -353,25 +449,9 @@ class PubSuite(Suite):
                     qlen = q
                 for sid in in_window:
                     in_window[sid] += 1
-                released = []
-                for e in evs:
-                    m = re.match(r"([wbc])(\d+)(?:=(\S+)@(\d+))?$", e)
-                    if not m:
-                        msgs.append("trace: unparsable event %s" % e)
-                        continue
-                    sid = int(m.group(2))
-                    s = subs.get(sid)
-                    if s is None or not s.parked:
-                        msgs.append("spurious-wake: subscriber %d was resumed although it was not waiting" % sid)
-                        continue
-                    released.append(sid)
-                    cnt["wakes"] += 1
-                    if m.group(1) == "w":
-                        s.parked = None
-                    else:
-                        fetched(s, m.group(3), int(m.group(4)))
+                was_parked, released = handle_events(evs, [])
                 if k in ("close", "destroy", "end"):
-                    left = [x for x in was_parked if x not in released]
+                    left = sorted(x.sid for x in subs.values() if x.parked and not x.gone)
                     if left:
                         msgs.append("close-no-wake: %s left subscribers %s waiting" % (k, left))
                 if k in ("kick", "kickme"):
@@ -404,6 +484,7 @@ class PubSuite(Suite):
             s = subs.get(sid)
             if s is None:
                 continue
+            expected = []
             if k == "leave":
                 s.gone = True
             elif k == "rdy":
@@ -417,15 +498,14 @@ class PubSuite(Suite):
                     cnt["window_ops"] += 1
                 s.pos = pos
                 if head[2] == "1":
-                    s.parked = "w"
-                    cnt["parks"] += 1
+                    park(s, "w", pos)
             elif k in NEXT_OPS:
                 in_window.pop(sid, None)
                 r = head[2]
                 if r == "parked":
-                    s.parked = k[0]
-                    s.pos = pos
-                    cnt["parks"] += 1
+                    park(s, k[0], pos)
+                    if k == "chain":
+                        follow[sid] = int(w[2])
                 elif r == "none":
                     pass
                 elif r == "no":
@@ -434,6 +514,10 @@ class PubSuite(Suite):
                         fetched(s, "eof", pos)
                 else:
                     fetched(s, r, pos)
+                    if k == "chain":
+                        expected.append(int(w[2]))
+            if evs:
+                handle_events(evs, expected)
         return msgs, subs, cnt
 
     def oracle(self, case, out):
